@@ -115,13 +115,25 @@ Definition sc_restart_in_commit_wait_later_round : list event :=
    EvStop; EvStart;
    EvRERespVRV (svw 2 1 [] [] [7] 15)].
 
+(** the validator set changes twice (the finalization of height 1 keeps all four validators, the finalization of height 2
+    drops the local validator: the set of height 4), the finalization of height 3 is stored, then a stop during commit wait
+    and a restart: the restarted machine enters height 4 and must use the set the finalization of height 2 returned
+    (not participating), not the set of height 3 *)
+Definition sc_restart_in_commit_wait_after_valset_change : list event :=
+  [EvStart] ++ one_height 1 7 0 0 15 ++ one_height 2 8 7 15 14
+  ++ [EvRERespVRV (svw 3 1 [] [] [8] 15);
+      EvView (svw 3 2 [([9], 30)] [mkPh [9] genesis_ash 15 14 [109] false] [8] 15) None;
+      EvFinResp 3 0 [9] 15 [2];
+      EvStop; EvStart; EvRERespVRV (svw 4 1 [] [] [9] 15)].
+
 Definition scenarios : list (list event) :=
   [sc_nil_prevote_restart_block; sc_block_prevote_restart_nil; sc_block_prevote_restart_other;
    sc_nil_precommit_restart_block; sc_block_precommit_restart_nil; sc_proposal_restart_other_proposal;
    sc_prevote_delay_then_commit; sc_prevote_delay_then_nil_commit; sc_prevote_delay_then_precommit_delay;
    sc_prevote_delay_elapses; sc_precommit_delay_then_commit; sc_stale_round_nil_quorum; sc_future_round_view;
    sc_stale_step_after_committed_header; sc_commit_wait_other_header_first;
-   sc_restart_after_valset_change; sc_restart_in_commit_wait_later_round].
+   sc_restart_after_valset_change; sc_restart_in_commit_wait_later_round;
+   sc_restart_in_commit_wait_after_valset_change].
 
 Definition scenario_report : list (list (list N * (list (list N) * list (list N)))) :=
   map (fun es => combine (map enc_event es) (map project (run_events (sm0 true) es))) scenarios.
